@@ -60,9 +60,76 @@ Theorem C10_topk_pushdown :
 Proof. exact TopkProofs.topk_pushdown. Qed.
 Print Assumptions C10_topk_pushdown.
 
-(* PARTIAL. Proved: the shape of what is sent to the partitions and the algebra
-   of the distributive reductions, for every partitioning. Not proved: the
-   end-to-end equality through remote.Execution (a remote range result re-read
-   with lookback 0 on the query's own grid is the identity - see the fix recorded
-   in known_findings.json) and topk/bottomk, whose pushed-down form is sound only
-   for tie-free data. Those are decided by the dist oracle of the check. *)
+(* ---- end to end, for operator trees (Remote.v, Trees.v, DistTree.v) ------------------------- *)
+From Verif Require Base Grid Compose Bin Remote Trees DistTree.
+
+(* remote.Execution: the result of the remote query, turned into series and read back on the same
+   window by a vector selector with lookback 0, is at every step the remote samples of that step
+   (ordered by series ID) - for every remote stream, batch size and window *)
+Theorem C10_remote_result_read_back_is_identity : forall B w n (f : Z -> list (nat * Z)),
+  (0 < B)%nat -> Base.wf_window w ->
+  Remote.reread B w n (map (fun t => (t, f t)) (Grid.grid w)) =
+  map (fun t => (t, EndToEnd.vec_of (Remote.by_id n t (f t)))) (Grid.grid w).
+Proof. exact Remote.reread_identity. Qed.
+Print Assumptions C10_remote_result_read_back_is_identity.
+
+(* a per-series expression e (selectors, range functions, per-sample operators) over series dealt
+   to two engines in any way: Coalesce(Remote(e), Remote(e)) and e over the union give the same
+   labelled samples at every step, for every shard count, batch size and window *)
+Theorem C10_distributed_expression_equals_central :
+  forall cf w, (0 < Compose.c_shards cf)%nat -> (0 < Compose.c_batch cf)%nat -> (0 <= Compose.c_lookback cf)%Z ->
+  Base.wf_window w -> (Bin.noT < Base.w_start w)%Z ->
+  forall s ls1 ls2 s1 s2, DistTree.sok s -> List.length ls1 = List.length s1 -> List.length ls2 = List.length s2 ->
+  Forall Base.sorted_ts s1 -> Forall Base.sorted_ts s2 ->
+  forall ts, In ts (Grid.grid w) ->
+  exists outs_c outs_d,
+    Trees.jrun cf w (DistTree.inst s (ls1 ++ ls2) (s1 ++ s2)) = inl outs_c /\
+    Trees.jrun cf w (Trees.JConcat (Trees.JRemote (DistTree.inst s ls1 s1)) (Trees.JRemote (DistTree.inst s ls2 s2))) = inl outs_d /\
+    Permutation (Bin.labelled Z (Trees.jseries (DistTree.inst s (ls1 ++ ls2) (s1 ++ s2))) (DistTree.step_of outs_c ts))
+                (Bin.labelled Z (Trees.jseries (Trees.JConcat (Trees.JRemote (DistTree.inst s ls1 s1)) (Trees.JRemote (DistTree.inst s ls2 s2))))
+                              (DistTree.step_of outs_d ts)).
+Proof. exact DistTree.distributed_expression_equals_central. Qed.
+Print Assumptions C10_distributed_expression_equals_central.
+
+(* ... and under an aggregation with an associative, commutative accumulator (sum, max, min):
+   agg(Coalesce(Remote(agg(e)), Remote(agg(e)))) and agg(e) over the union give the same groups
+   with the same values at every step *)
+Theorem C10_distributed_aggregation_equals_central :
+  forall cf w, (0 < Compose.c_shards cf)%nat -> (0 < Compose.c_batch cf)%nat -> (0 <= Compose.c_lookback cf)%Z ->
+  Base.wf_window w -> (Bin.noT < Base.w_start w)%Z ->
+  forall (add : Z -> Z -> Z), (forall a b c, add (add a b) c = add a (add b c)) -> (forall a b, add a b = add b a) ->
+  forall without grouping s ls1 ls2 s1 s2, DistTree.sok s -> List.length ls1 = List.length s1 -> List.length ls2 = List.length s2 ->
+  Forall Base.sorted_ts s1 -> Forall Base.sorted_ts s2 ->
+  forall ts, In ts (Grid.grid w) ->
+  let agg := fun t => Trees.JAgg (fun v => v) add without grouping t in
+  let central := agg (DistTree.inst s (ls1 ++ ls2) (s1 ++ s2)) in
+  let distributed := agg (Trees.JConcat (Trees.JRemote (agg (DistTree.inst s ls1 s1))) (Trees.JRemote (agg (DistTree.inst s ls2 s2)))) in
+  exists outs_c outs_d,
+    Trees.jrun cf w central = inl outs_c /\ Trees.jrun cf w distributed = inl outs_d /\
+    Permutation (Bin.labelled Z (Trees.jseries central) (DistTree.step_of outs_c ts))
+                (Bin.labelled Z (Trees.jseries distributed) (DistTree.step_of outs_d ts)).
+Proof. exact DistTree.distributed_aggregation_equals_central. Qed.
+Print Assumptions C10_distributed_aggregation_equals_central.
+
+(* non-vacuity: sum by (b) (foo) with foo's three series on two engines, two steps *)
+Example C10_distributed_example :
+  let l1 := [[(0, 10); (1, 20); (2, 31)]; [(0, 10); (1, 22); (2, 32)]]%N in
+  let d1 := [[Base.mkS 940 (Some 2); Base.mkS 1040 (Some 9)]; [Base.mkS 1000 (Some 1)]]%Z in
+  let l2 := [[(0, 10); (1, 21); (2, 31)]]%N in
+  let d2 := [[Base.mkS 950 (Some 5)]]%Z in
+  let agg := fun t => Trees.JAgg (fun v => v) Z.add false [2%N] t in
+  let central := agg (Trees.JLeaf (l1 ++ l2) (d1 ++ d2) 0%Z None) in
+  let distributed := agg (Trees.JConcat (Trees.JRemote (agg (Trees.JLeaf l1 d1 0%Z None))) (Trees.JRemote (agg (Trees.JLeaf l2 d2 0%Z None)))) in
+  Trees.jrun (Compose.mkCfg 2 10 300%Z) (Base.mkW 1000 1050 50)%Z central = inl [(1000, [(0%nat, 7); (1%nat, 1)]); (1050, [(0%nat, 14); (1%nat, 1)])]%Z /\
+  Trees.jrun (Compose.mkCfg 2 10 300%Z) (Base.mkW 1000 1050 50)%Z distributed = inl [(1000, [(0%nat, 7); (1%nat, 1)]); (1050, [(0%nat, 14); (1%nat, 1)])]%Z.
+Proof. cbv zeta. split; vm_compute; reflexivity. Qed.
+
+(* PARTIAL. Proved: the shape of what is sent to the partitions, the algebra of the
+   distributive reductions for every partitioning, and end to end - through the
+   remote execution's read-back and the coalesce operator - per-series expressions
+   and sum/max/min aggregations of them over two engines. Not proved end to end:
+   count (pushed down as count, merged with sum: C10_count_pushdown gives the algebra),
+   group, topk/bottomk (C10_topk_pushdown: sound for tie-free data), more than two
+   engines (Coalesce nests), and expressions whose distributed form mixes pushed and
+   unpushed parts. Those are decided by the dist oracle and the distributed tree
+   correspondence of the check. *)
